@@ -54,15 +54,18 @@ Definition R_libm1 (f : fn) (x : R) : res R :=
   | _ => Err OtherExn
   end.
 
-(* x ** y for real x, y as Python defines it where the result is real and we can say
-   what it is: positive base (exp (y ln x)); zero base with positive exponent (0), with
-   zero exponent (1), with negative exponent (ZeroDivisionError); negative base is left to
-   the complex path (ComplexResult) -- integer exponents of negative bases are handled by
-   [F_pow] callers through repeated multiplication in the theorems that need them. *)
+(* x ** y for real x, y as Python's float ** defines it, where the result is real:
+   integer-valued exponent: repeated multiplication / division (ZeroDivisionError for 0 to a
+   negative power); otherwise positive base: exp (y ln x); zero base: 0 for y > 0, else
+   ZeroDivisionError; negative base with a non-integer exponent: Python returns a complex
+   number (ComplexResult). *)
 Definition pow_R (x y : R) : res R :=
-  if Rlt_dec 0 x then Ok (Rpower x y)
-  else if Req_EM_T x 0 then
-    (if Rlt_dec 0 y then Ok 0 else if Req_EM_T y 0 then Ok 1 else Err ZeroDivisionError)
+  let n := Int_part y in
+  if Req_EM_T y (IZR n) then
+    (if Req_EM_T x 0 then (if Z.ltb n 0 then Err ZeroDivisionError else Ok (powerRZ x n))
+     else Ok (powerRZ x n))
+  else if Rlt_dec 0 x then Ok (Rpower x y)
+  else if Req_EM_T x 0 then (if Rlt_dec 0 y then Ok 0 else Err ZeroDivisionError)
   else Err ComplexResult.
 
 Definition R_libm2 (f : fn) (x y : R) : res R :=
